@@ -4,6 +4,8 @@
        L1 = per Run call (mode L: one per complete line, mode R: one for the stream)  st~out~pos~searcher sizes   joined by ";"
        L2 = size~searcher kept
      CASE B <movetime> <gametime> <inc> | budget
+     CASE F <ns> | formatTime                         (coq/TeiClient.v format_time)
+     CASE K <items> <transcript> | results and lines  (the client model, see client_session below)
    Also exports [tei_outcome] for the C13 driver: how the model's Run ends on an arbitrary byte string. *)
 open Common
 open BinNums
@@ -27,6 +29,95 @@ let enc_pos = function None -> "-" | Some p -> enc_abs p
 let tei_outcome (script : string) : string =
   let (((_, _), st), _) = TeiInst.inst_run_bytes (z_of_int 1) (n_of_int 1) (nat_of_int 0) (bytes_of_string script) TeiInst.inst_engine0 in
   match st with Tei.Running | Tei.Quit -> "OK" | Tei.Failed -> "ERR" | Tei.Crashed -> "PANIC"
+
+(* ---- the client side: coq/TeiClient.v against the engine answers of the session ----
+     CASE K <hex of the items> <transcript> | <results> <hex lines the engine received, joined by ",">
+   items (one per line): "E ..." engine rules (only "E real <depth>" matters here), "G <size>", "P <tps>",
+   "Q <player> <dl> <tc> <tps>", "M <player> <dl> <tps>"; dl = "-" or "=<ns left>"; tc = "-" or "w,b,wi,bi" (ns).
+   transcript = what the scripted engine process answered to the k-th line it received: "<hex or ->:<flags or ->" joined by ","
+   (flags: c = stdout closed after the answer, x = stdin closed before it and exit after it).  The oracle [eng] of the model
+   is: the k-th successful write gets the k-th answer; after an x every write fails.  For "E real <depth>" the oracle is the
+   engine model itself (TeiClient.tei_proc over TeiInst, evaluator 1, no table). *)
+let hex_of_string (s : string) = S.concat "" (L.init (S.length s) (fun i -> Printf.sprintf "%02x" (Char.code (Stdlib.String.get s i))))
+let err_class = function
+  | TeiClient.EWrite -> "write" | TeiClient.ERead -> "read" | TeiClient.ESendPosition -> "sendpos" | TeiClient.ETimeoutShort -> "short"
+  | TeiClient.EServer -> "server" | TeiClient.EBadBestmove -> "badbest" | TeiClient.EUnparseable -> "unparse"
+let panic_class = function
+  | TeiClient.PDeadPlayer -> "dead" | TeiClient.PBlankLine -> "blank" | TeiClient.PGetMove e -> "getmove-" ^ err_class e
+
+(* the session, generic in the engine oracle; [sent] extracts the lines written so far from the oracle's state *)
+let session_with (type es) (eng : es -> coq_N list -> es TeiClient.eresp option) (es0 : es) (sent : es -> coq_N list list)
+    (items : string list) : string =
+  let results = ref [] in
+  let add r = results := r :: !results in
+  let finish (c : es TeiClient.client) = (S.concat ";" (L.rev !results)) ^ " " ^ S.concat "," (L.rev_map (fun l -> hex_of_string (string_of_bytes l)) (sent c.TeiClient.c_es)) in
+  let (c0, o) = TeiClient.new_client eng es0 in
+  match o with
+  | TeiClient.RErr _ -> add "N:err"; finish c0
+  | TeiClient.RPanic w -> add ("N:panic:" ^ panic_class w); finish c0
+  | TeiClient.RHang -> add "N:hang"; finish c0
+  | TeiClient.ROk () ->
+    add "N:ok";
+    let c = ref c0 and players = ref [||] and stop = ref false and hung = ref false in
+    L.iter (fun it ->
+      if not !stop then
+      match S.split_on_char ' ' it with
+      | "G" :: sz :: _ ->
+        let (c1, o) = TeiClient.new_game eng !c (z_of_i64 (Int64.of_string sz)) in
+        c := c1;
+        (match o with
+         | TeiClient.ROk g -> players := Array.append !players [|g|]; add "G:ok"
+         | _ -> add "G:err")
+      | (("P" | "Q" | "M") as k) :: rest when Array.length !players > 0 ->
+        let latest = !players.(Array.length !players - 1) in
+        let pick s = let i = int_of_string s in if i >= 0 && i < Array.length !players then !players.(i) else latest in
+        let (pl, dl, tc, tps) = (match k, rest with
+          | "P", _ -> (latest, "-", "-", S.concat " " rest)
+          | "Q", pl :: dl :: tc :: t -> (pick pl, dl, tc, S.concat " " t)
+          | "M", pl :: dl :: t -> (pick pl, dl, "-", S.concat " " t)
+          | _ -> failwith "C17: bad client item") in
+        let pos = (match Inst.tps_parse (bytes_of_string tps) with Move.Ok p -> p | _ -> failwith "C17: bad tps in client item") in
+        let dl = if dl = "-" then None else Some (z_of_i64 (Int64.of_string (S.sub dl 1 (S.length dl - 1)))) in
+        let tc = if tc = "-" then None else
+          (match L.map (fun v -> z_of_i64 (Int64.of_string v)) (S.split_on_char ',' tc) with
+           | [w; b; wi; bi] -> Some { TeiClient.tc_white = w; tc_black = b; tc_winc = wi; tc_binc = bi }
+           | _ -> failwith "C17: bad tc") in
+        let (c1, o) = if k = "M" then TeiClient.get_move eng !c pl pos dl else TeiClient.tei_get_move eng !c pl pos dl tc in
+        c := c1;
+        (match o with
+         | TeiClient.ROk m -> add (Printf.sprintf "P:ok:%s,%s,%d,%d" (string_of_z m.PtnMove.mX) (string_of_z m.PtnMove.mY) (int_of_n m.PtnMove.mT) (int_of_n m.PtnMove.mS))
+         | TeiClient.RErr e -> add ("P:err:" ^ err_class e)
+         | TeiClient.RPanic w -> add ("P:panic:" ^ panic_class w); stop := true
+         | TeiClient.RHang -> add "P:hang"; stop := true; hung := true)
+      | _ -> ()) items;
+    (* the deferred cl.Close(); after a hang the engine process is killed instead *)
+    let c = if !hung then !c else TeiClient.close eng !c in
+    finish c
+
+let client_session (items : string) (transcript : string) : string =
+  let items = S.split_on_char '\n' items in
+  let real = L.find_opt (fun it -> S.length it > 7 && S.sub it 0 7 = "E real ") items in
+  match real with
+  | Some it ->
+    let depth = z_of_int (int_of_string (S.sub it 7 (S.length it - 7))) in
+    let mk = TeiInst.inst_mk depth (n_of_int 1) (nat_of_int 0) in
+    let eng (st, sent) line =
+      (match TeiClient.tei_proc Consts.gen_basis mk TeiInst.inst_search st line with
+       | None -> None
+       | Some r -> Some { TeiClient.er_state = (r.TeiClient.er_state, line :: sent); er_out = r.TeiClient.er_out; er_closed = r.TeiClient.er_closed }) in
+    session_with eng (TeiClient.proc0, []) snd items
+  | None ->
+    let tr = if transcript = "-" then [||] else
+      Array.of_list (L.map (fun e -> match S.split_on_char ':' e with
+                                     | [o; f] -> ((if o = "-" then "" else unhex o), f)
+                                     | _ -> failwith "C17: bad transcript") (S.split_on_char ',' transcript)) in
+    (* state: number of lines received, stdin closed, lines received (most recent first) *)
+    let eng (k, dead, sent) line =
+      if dead then None else
+      let (out, flags) = if k < Array.length tr then tr.(k) else ("", "-") in
+      let x = S.contains flags 'x' and cl = S.contains flags 'c' in
+      Some { TeiClient.er_state = (k + 1, x, line :: sent); er_out = Tei.lines_of (bytes_of_string out); er_closed = x || cl } in
+    session_with eng (0, false, []) (fun (_, _, s) -> s) items
 
 let run (_args : string list) =
   run_cases (fun fs ->
@@ -77,4 +168,7 @@ let run (_args : string list) =
         record (if same then st_char st2 else "MODEL-RUN-DIFFERS-FROM-STEPS") out2 e2 (L.rev !facs)
       end;
       (S.concat ";" (L.rev !l1), Some (S.concat ";" (L.rev !l2)), None)
+    | ["F"; d] ->
+      (string_of_bytes (TeiClient.format_time (z_of_i64 (Int64.of_string d))), None, None)
+    | ["K"; items; transcript] -> (client_session (unhex items) transcript, None, None)
     | _ -> failwith "C17: bad case")
